@@ -1105,9 +1105,69 @@ fn slot_system<const I: usize>(mut c: Commands)
     if let Some((op, idx)) = op { issue_op(&mut c, op, CmdId{ by: Issuer::Top, idx }, true, None); }
 }
 
+/// Reactors registered at app level (`App::add_reactor`): presented to the monitor as setup operations. With `early`
+/// (before `ReactPlugin` has been added; the trigger entities exist already) the world cannot be sampled yet and the
+/// ordinary actors do not exist yet: the trace events and the actor records are returned and emitted once the plugin is
+/// in and the ordinary actors have been spawned (`finish_early_app_reactors`).
+fn add_app_reactors(app: &mut App, cfg: &Arc<Config>, early: bool) -> Vec<(CmdId, Issued, Entity, Variant, ActorId)>
+{
+    let mut pending = Vec::new();
+    for (k, (variant, bundle)) in cfg.app_reactors.iter().enumerate()
+    {
+        let id = (cfg.actors.len() + k) as ActorId;
+        let before: Vec<Entity> = if early { app.world().iter_entities().map(|e| e.id()).collect() }
+            else { hooks::snapshot(app.world_mut()).system_commands.iter().map(|(e, _)| *e).collect() };
+        let b = with_ctx(|x| dyn_bundle(x, bundle));
+        let cmd = CmdId{ by: Issuer::Setup, idx: 1000 + k as u16 };
+        let issued = Issued{ op: Op::RegisterNew(*variant, *bundle, Mode::Persistent), payload: None, new_actor: Some(id), token: None, issue_ok: true, value: None };
+        if !early { push(TEv::Top{ cmd, issued: issued.clone() }); }
+        match variant
+        {
+            Variant::Plain => { app.add_reactor(b, plain_actor(id, false, true, vec![])); }
+            Variant::NoTake => { app.add_reactor(b, plain_actor(id, false, false, vec![])); }
+            Variant::Erring => { app.add_reactor(b, erring_actor(id, vec![])); }
+            Variant::Exclusive => { app.add_reactor(b, exclusive_actor(id, vec![], false)); }
+            Variant::ExclusiveFlush => { app.add_reactor(b, exclusive_actor(id, vec![], true)); }
+            Variant::Deferred => { app.add_reactor(b, deferred_actor(id, vec![])); }
+        }
+        let after: Vec<Entity> = if early { app.world().iter_entities().map(|e| e.id()).collect() }
+            else { hooks::snapshot(app.world_mut()).system_commands.iter().map(|(e, _)| *e).collect() };
+        let new: Vec<Entity> = after.into_iter().filter(|e| !before.contains(e)).collect();
+        let ent = if new.len() == 1 { new[0] } else { Entity::PLACEHOLDER };
+        if early { pending.push((cmd, issued, ent, *variant, id)); continue; }
+        finish_app_reactor(app, cmd, ent, *variant, id, true);
+    }
+    pending
+}
+
+fn finish_app_reactor(app: &mut App, cmd: CmdId, ent: Entity, variant: Variant, id: ActorId, quiesce: bool)
+{
+    if ent == Entity::PLACEHOLDER { push(TEv::Value{ what: "app-reactor-not-spawned".into(), value: id as i64 }); }
+    with_ctx(|x| {
+        if ent != Entity::PLACEHOLDER { x.names.insert(ent, Name::Actor(id)); }
+        x.actors.push(ActorRt{ entity: ent, variant, runs: 0 });
+        x.actors_ready |= 1 << id;
+    });
+    let live = sample_live(app.world());
+    push(TEv::Applied{ cmd, live });
+    if quiesce { quiescent(app.world_mut()); }
+}
+
 fn run_program(cfg: &Arc<Config>)
 {
     let mut app = App::new();
+    let mut early_reactors = Vec::new();
+    if cfg.plugin_late
+    {
+        // `App::add_reactor` before `ReactPlugin` (a legal order: the extension methods set up what they need); the
+        // trigger entities are spawned first so that entity-scoped triggers can name them
+        for i in 0..cfg.n_ents
+        {
+            let e = app.world_mut().spawn_empty().id();
+            with_ctx(|x| { x.names.insert(e, Name::Ent(i)); x.ents.push(e); });
+        }
+        early_reactors = add_app_reactors(&mut app, cfg, true);
+    }
     app.add_plugins(ReactPlugin);
     if let Some((_, chained)) = cfg.frame
     {
@@ -1117,7 +1177,7 @@ fn run_program(cfg: &Arc<Config>)
     app.world_mut().insert_react_resource(RA(0));
 
     // entities
-    for i in 0..cfg.n_ents
+    for i in 0..(if cfg.plugin_late { 0 } else { cfg.n_ents })
     {
         let e = app.world_mut().spawn_empty().id();
         with_ctx(|x| { x.names.insert(e, Name::Ent(i)); x.ents.push(e); });
@@ -1126,6 +1186,16 @@ fn run_program(cfg: &Arc<Config>)
     {
         let (c, p) = with_ctx(|x| (x.ents[*child as usize], x.ents[*parent as usize]));
         app.world_mut().entity_mut(p).add_child(c);
+    }
+    if cfg.mirror_observer
+    {
+        let (e0, e1) = with_ctx(|x| (x.ents[0], x.ents[1]));
+        app.world_mut().add_observer(move |t: Trigger<OnInsert, React<CA>>, q: Query<&React<CA>>, mut c: Commands| {
+            if t.entity() != e0 { return; }
+            let Ok(v) = q.get(e0).map(|r| *r.get()) else { return };
+            if c.get_entity(e1).is_none() { return; }
+            c.react().insert(e1, v);
+        });
     }
     // auto-despawn signals held by the harness
     with_ctx(|x| x.signals = (0..cfg.n_ents).map(|_| None).collect());
@@ -1150,35 +1220,13 @@ fn run_program(cfg: &Arc<Config>)
         with_ctx(|x| x.actors_ready |= 1 << i);
     }
     drop(prepared);
-    // reactors registered at app level (`App::add_reactor`): presented to the monitor as setup operations
-    for (k, (variant, bundle)) in cfg.app_reactors.iter().enumerate()
+    if !cfg.plugin_late { add_app_reactors(&mut app, cfg, false); }
+    // (all of them are registered already: the tables are compared once, after the last one has been presented)
+    let n_early = early_reactors.len();
+    for (k, (cmd, issued, ent, variant, id)) in early_reactors.into_iter().enumerate()
     {
-        let id = (cfg.actors.len() + k) as ActorId;
-        let before: Vec<Entity> = hooks::snapshot(app.world_mut()).system_commands.iter().map(|(e, _)| *e).collect();
-        let b = with_ctx(|x| dyn_bundle(x, bundle));
-        let cmd = CmdId{ by: Issuer::Setup, idx: 1000 + k as u16 };
-        push(TEv::Top{ cmd, issued: Issued{ op: Op::RegisterNew(*variant, *bundle, Mode::Persistent), payload: None, new_actor: Some(id), token: None, issue_ok: true, value: None } });
-        match variant
-        {
-            Variant::Plain => { app.add_reactor(b, plain_actor(id, false, true, vec![])); }
-            Variant::NoTake => { app.add_reactor(b, plain_actor(id, false, false, vec![])); }
-            Variant::Erring => { app.add_reactor(b, erring_actor(id, vec![])); }
-            Variant::Exclusive => { app.add_reactor(b, exclusive_actor(id, vec![], false)); }
-            Variant::ExclusiveFlush => { app.add_reactor(b, exclusive_actor(id, vec![], true)); }
-            Variant::Deferred => { app.add_reactor(b, deferred_actor(id, vec![])); }
-        }
-        let after: Vec<Entity> = hooks::snapshot(app.world_mut()).system_commands.iter().map(|(e, _)| *e).collect();
-        let new: Vec<Entity> = after.into_iter().filter(|e| !before.contains(e)).collect();
-        let ent = if new.len() == 1 { new[0] } else { Entity::PLACEHOLDER };
-        if new.len() != 1 { push(TEv::Value{ what: "app-reactor-not-spawned".into(), value: id as i64 }); }
-        with_ctx(|x| {
-            if new.len() == 1 { x.names.insert(ent, Name::Actor(id)); }
-            x.actors.push(ActorRt{ entity: ent, variant: *variant, runs: 0 });
-            x.actors_ready |= 1 << id;
-        });
-        let live = sample_live(app.world());
-        push(TEv::Applied{ cmd, live });
-        quiescent(app.world_mut());
+        push(TEv::Top{ cmd, issued });
+        finish_app_reactor(&mut app, cmd, ent, variant, id, k + 1 == n_early);
     }
     if let Some(variant) = cfg.ewr
     {
